@@ -253,10 +253,16 @@ class DictVal(object):
     def __init__(self, entries=None):
         self.entries = list(entries) if entries is not None else []
         self.base = None
+        # for dictionaries given abstractly (background only): number of keys and largest key
+        # (Int terms) when known, and the items in iteration order as a symbolic sequence
+        self.size = None
+        self.keys_max = None
+        self.items_seq = None
 
     def copy(self):
         d = DictVal(self.entries)
         d.base = self.base
+        d.size, d.keys_max, d.items_seq = self.size, self.keys_max, self.items_seq
         return d
 
     def __repr__(self):
